@@ -114,7 +114,8 @@ class ModelFunctionBase(FileIOMixin, object):
         self._assign_model_function_signature_and_argcount(_custom_defaults)
         self._validate_model_function_raise()
         self._assign_function_formatter()
-        self._source_code = None
+        # a function defined by a SymPy string is written to file as that string (the generated code relies on a private namespace)
+        self._source_code = model_function if isinstance(model_function, str) and "->" in model_function else None
         super(ModelFunctionBase, self).__init__()
 
     @classmethod
